@@ -360,15 +360,21 @@ Definition solve_T_at_HP (aitken : Q -> res (Q * cn_cache)) (secant : Q -> Q -> 
   if qltb tol (Qabs (T - Tg)) then secant Tg T else Ok T.
 
 (* ------------------------------------------------------------------ instances used by the correspondence *)
-(* stub package: H = sum n_i Cn_i (T - Tref) in every phase; the solver lands on the closed-form root, which is
+(* stub package: H(phase) = sum n_i (Cn_i(phase) (T - Tref) + L_i(phase)) with one heat capacity for the condensed
+   phases, another for the gas, and a latent offset for the gas; the solver lands on the closed-form root, which is
    one Newton step of iter_T_at_HP from the guess *)
-Definition lin_Cn (cn : vec) (m : pmol) : Q := fold_right (fun pv acc => vdot cn (snd pv) + acc) 0 m.
-Definition lin_H (cn : vec) (Tref : Q) : phase -> vec -> Q -> Q -> Q := fun _ v T _ => vdot cn v * (T - Tref).
-Definition lin_solve (cn : vec) (Tref : Q) : pmol -> Q -> Q -> Q -> res Q := fun m h Tg P =>
-  do r <- iter_T_at_HP Tg h (fun T => xsum (lin_H cn Tref) m T P) (fun _ => lin_Cn cn m) (O, None);
+Record stubp := mkP { cnl : vec; cng : vec; latg : vec }.   (* Cn of the condensed phases, Cn of the gas, latent offset of the gas *)
+Definition cn_of (c : stubp) (p : phase) : vec := if (p =? 3)%nat then cng c else cnl c.
+Definition lat_of (c : stubp) (p : phase) : vec := if (p =? 3)%nat then latg c else [].
+Definition lin_Cn (c : stubp) (m : pmol) : Q := fold_right (fun pv acc => vdot (cn_of c (fst pv)) (snd pv) + acc) 0 m.
+Definition lin_L (c : stubp) (m : pmol) : Q := fold_right (fun pv acc => vdot (lat_of c (fst pv)) (snd pv) + acc) 0 m.
+Definition lin_H (c : stubp) (Tref : Q) : phase -> vec -> Q -> Q -> Q :=
+  fun p v T _ => vdot (cn_of c p) v * (T - Tref) + vdot (lat_of c p) v.
+Definition lin_solve (c : stubp) (Tref : Q) : pmol -> Q -> Q -> Q -> res Q := fun m h Tg P =>
+  do r <- iter_T_at_HP Tg h (fun T => xsum (lin_H c Tref) m T P) (fun _ => lin_Cn c m) (O, None);
   Ok (fst r).
-Definition lin_oracles (cn hf : vec) (Tref : Q) : oracles :=
-  mkO (lin_H cn Tref) (fun _ _ _ _ => 0) (lin_solve cn Tref) (fun _ _ _ _ => Err EOther) hf.
+Definition lin_oracles (c : stubp) (hf : vec) (Tref : Q) : oracles :=
+  mkO (lin_H c Tref) (fun _ _ _ _ => 0) (lin_solve c Tref) (fun _ _ _ _ => Err EOther) hf.
 
 (* scripted solver: keyed on the phases it is called with; None = raises RuntimeError,
    Some (a, b, c) = returns a + b * target + c * T_guess *)
@@ -384,8 +390,8 @@ Fixpoint script_solve (tbl : script) (m : pmol) (x Tg P : Q) : res Q :=
         end
       else script_solve t m x Tg P
   end.
-Definition script_oracles (cn hf : vec) (Tref : Q) (th ts : script) : oracles :=
-  mkO (lin_H cn Tref) (fun _ _ _ _ => 0) (script_solve th) (script_solve ts) hf.
+Definition script_oracles (c : stubp) (hf : vec) (Tref : Q) (th ts : script) : oracles :=
+  mkO (lin_H c Tref) (fun _ _ _ _ => 0) (script_solve th) (script_solve ts) hf.
 
 (* ------------------------------------------------------------------ comparison helpers for the case files *)
 Definition pv_eqb (a b : phase * vec) : bool := (fst a =? fst b)%nat && veqb (snd a) (snd b).
